@@ -568,27 +568,118 @@ def lowerbound_helpers_on_unvalidated_input(prog, rep, RID):
         if isinstance(t, ast.Call) and (dotted(t.func) or "") in ("math.isfinite", "isfinite", "np.isfinite", "numpy.isfinite"):
             return False
         return None
-    key = "MinFlowDecomp._get_lowerbound_with_min_gen_set:invalid-flows-give-no-bound"
-    guard = None
-    for st in f.node.body:
-        if getattr(st, "lineno", 0) >= calls[0].lineno:
-            break
-        if isinstance(st, ast.If) and not st.orelse and st.body and isinstance(st.body[-1], ast.Return) and isinstance(st.test, ast.Call) and \
-                dotted(st.test.func) == "any" and st.test.args and isinstance(st.test.args[0], (ast.GeneratorExp, ast.ListComp)):
-            g = st.test.args[0]
-            reads_flow = "flow_attr" in norm(g.elt)
-            zero = any(isinstance(x, ast.Constant) and x.value == 0 and not isinstance(x.value, bool) for c in ast.walk(g.elt) if isinstance(c, ast.Compare) for x in [c.left] + list(c.comparators))
-            if reads_flow and zero and not g.generators[0].ifs and "self.G.edges" in norm(g.generators[0].iter):
-                guard = (st, nan_true(g.elt))
-    if guard is None:
-        rep.violation(RID, key, "MinGenSet is built from the flow values before anything validated them (get_lowerbound_k precedes the first k-model): with "
-                      "use_min_gen_set_lowerbound=True a negative flow value reaches MinGenSet as a negative total and solve() raises a bare "
-                      "Exception('Failed to add columns to the model.') instead of the documented ValueError; no guard returns None for values that are not >= 0",
-                      f.loc(calls[0]))
-    elif guard[1] is not True:
-        rep.violation(RID, key, f"the guard `{norm(guard[0].test)[:90]}` is False for NaN (every comparison with NaN is False): NaN flow values still reach MinGenSet", f.loc(guard[0]))
-    else:
-        rep.ok(RID, key, f"`{norm(guard[0].test)[:90]}` -> no bound", f.loc(guard[0]))
+    import math as _math
+
+    def concrete(t, x):
+        """value of the guard when the flow read has the value x (None: cannot evaluate)"""
+        if isinstance(t, ast.Constant):
+            return t.value
+        if isinstance(t, ast.Subscript) and "flow_attr" in norm(t.slice):
+            return x
+        if isinstance(t, ast.Call) and dotted(t.func) == "float" and len(t.args) == 1 and isinstance(t.args[0], ast.Constant) and isinstance(t.args[0].value, str):
+            try:
+                return float(t.args[0].value)
+            except ValueError:
+                return None
+        if isinstance(t, ast.Attribute) and norm(t) in ("math.inf", "np.inf", "numpy.inf"):
+            return _math.inf
+        if isinstance(t, ast.Call) and len(t.args) == 1 and (dotted(t.func) or "") in ("math.isnan", "math.isfinite", "math.isinf", "np.isnan", "np.isfinite", "np.isinf", "float", "abs"):
+            v = concrete(t.args[0], x)
+            if v is None:
+                return None
+            fn = (dotted(t.func) or "").split(".")[-1]
+            return {"isnan": _math.isnan, "isfinite": _math.isfinite, "isinf": _math.isinf, "float": float, "abs": abs}[fn](v)
+        if isinstance(t, ast.UnaryOp) and isinstance(t.op, ast.Not):
+            v = concrete(t.operand, x)
+            return None if v is None else (not v)
+        if isinstance(t, ast.UnaryOp) and isinstance(t.op, ast.USub):
+            v = concrete(t.operand, x)
+            return None if v is None else -v
+        if isinstance(t, ast.BoolOp):
+            vals = [concrete(v, x) for v in t.values]
+            if any(v is None for v in vals):
+                return None
+            return all(vals) if isinstance(t.op, ast.And) else any(vals)
+        if isinstance(t, ast.Compare):
+            left = concrete(t.left, x)
+            for op, right in zip(t.ops, t.comparators):
+                r = concrete(right, x)
+                if left is None or r is None:
+                    return None
+                tab = {ast.Lt: left < r, ast.LtE: left <= r, ast.Gt: left > r, ast.GtE: left >= r, ast.Eq: left == r, ast.NotEq: left != r}
+                if type(op) not in tab:
+                    return None
+                if not tab[type(op)]:
+                    return False
+                left = r
+            return True
+        return None
+    for cname in ("MinFlowDecomp", "MinFlowDecompCycles"):
+        f = prog.own_method(cname, "_get_lowerbound_with_min_gen_set")
+        calls = [c for c in calls_in(f.node) if (dotted(c.func) or "").endswith("MinGenSet")]
+        if not calls:
+            raise AnalysisError(f"{cname}._get_lowerbound_with_min_gen_set: MinGenSet call not found")
+        key = f"{cname}._get_lowerbound_with_min_gen_set:invalid-flows-give-no-bound"
+        guards = []
+        for st in f.node.body:
+            if getattr(st, "lineno", 0) >= calls[0].lineno:
+                break
+            if isinstance(st, ast.If) and not st.orelse and st.body and isinstance(st.body[-1], ast.Return) and isinstance(st.test, ast.Call) and \
+                    dotted(st.test.func) == "any" and st.test.args and isinstance(st.test.args[0], (ast.GeneratorExp, ast.ListComp)):
+                g = st.test.args[0]
+                reads_flow = any(isinstance(x_, ast.Subscript) and "flow_attr" in norm(x_.slice) for x_ in ast.walk(g.elt))
+                if reads_flow and isinstance(g.elt, (ast.Compare, ast.BoolOp, ast.UnaryOp, ast.Call)) and not g.generators[0].ifs and "self.G.edges" in norm(g.generators[0].iter) and \
+                        not (isinstance(g.elt, ast.Compare) and isinstance(g.elt.ops[0], (ast.In, ast.NotIn))):
+                    guards.append(st)
+        # the guards together: each invalid value makes one of them leave; valid values none
+        vals = {"nan": _math.nan, "inf": _math.inf, "-1": -1.0, "-inf": -_math.inf}
+        res = {}
+        unreadable = False
+        for nm, xv in vals.items():
+            outs = [concrete(st.test.args[0].elt, xv) for st in guards]
+            unreadable = unreadable or any(o is None for o in outs)
+            res[nm] = any(o is True for o in outs)
+        valid_hit = [st for st in guards for xv in (0, 5, 0.25) if concrete(st.test.args[0].elt, xv) is True]
+        if unreadable:
+            raise AnalysisError(f"{cname}._get_lowerbound_with_min_gen_set: a guard on the flow values could not be evaluated")
+        if cname == "MinFlowDecompCycles":
+            # (the constructor of the cyclic class validates negative values itself: only non-finite ones can arrive here)
+            res["-1"] = True
+        missed = [nm for nm, hit in res.items() if not hit]
+        if valid_hit:
+            # `not attr in data` style guards are told apart above; a guard that leaves for valid values switches the bound off - not a C19 matter
+            pass
+        if not guards or missed == list(vals):
+            rep.violation(RID, key, "MinGenSet is built from the flow values before anything validated them (get_lowerbound_k precedes the first k-model): with "
+                          "use_min_gen_set_lowerbound=True a negative flow value reaches MinGenSet as a negative total and solve() raises a bare "
+                          "Exception('Failed to add columns to the model.') instead of the documented ValueError; no guard returns None for values that are not >= 0",
+                          f.loc(calls[0]))
+        elif missed:
+            rep.violation(RID, key, f"the guard `{norm(guards[0].test)[:90]}` does not leave for a flow value {' / '.join(missed)} (every comparison with NaN is False; inf passes `>= 0`): "
+                          "such values still reach MinGenSet and solve() raises a bare solver Exception instead of the ValueError of the k-model", f.loc(guards[0]))
+        else:
+            rep.ok(RID, key, f"`{norm(guards[0].test)[:90]}` -> no bound", f.loc(guards[0]))
+    # (c) the count of distinct weights in get_lowerbound_k converts with int(): only finite values may get there
+    f = prog.own_method("MinFlowDecomp", "get_lowerbound_k")
+    key = "MinFlowDecomp.get_lowerbound_k:int-of-finite-values"
+    ints = [c for c in ast.walk(f.node) if isinstance(c, ast.Call) and dotted(c.func) == "int" and len(c.args) == 1 and
+            any(isinstance(x_, ast.Subscript) and "flow_attr" in norm(x_.slice) for x_ in ast.walk(c.args[0]))]
+    for c in ints:
+        comp = [n for n in ast.walk(f.node) if isinstance(n, (ast.SetComp, ast.ListComp, ast.GeneratorExp)) and any(x_ is c for x_ in ast.walk(n.elt))]
+        conds = [t for n in comp for g_ in n.generators for t in g_.ifs]
+        flat = []
+        for t in conds:
+            flat += list(t.values) if isinstance(t, ast.BoolOp) and isinstance(t.op, ast.And) else [t]
+        on_value = [t for t in flat if any(isinstance(x_, ast.Subscript) and "flow_attr" in norm(x_.slice) for x_ in ast.walk(t)) and
+                    not (isinstance(t, ast.Compare) and isinstance(t.ops[0], (ast.In, ast.NotIn)))]
+        bad = [nm for nm, xv in (("inf", _math.inf), ("-inf", -_math.inf)) if not any(concrete(t, xv) is False for t in on_value)]
+        if any(concrete(t, xv) is None for t in on_value for xv in (_math.inf,)):
+            raise AnalysisError("MinFlowDecomp.get_lowerbound_k: filter of the weight count could not be evaluated")
+        if bad:
+            rep.violation(RID, key, f"`{norm(c)[:70]}` is evaluated for every non-ignored flow value before any k-model validated them: int({bad[0]}) raises OverflowError from "
+                          "MinFlowDecomp.solve() instead of the documented ValueError (kFlowDecomp on the same graph raises ValueError)", f.loc(c))
+        else:
+            rep.ok(RID, key, "only finite values are converted with int()", f.loc(c))
     # (b)
     g = prog.own_method("MinFlowDecomp", "_get_lowerbound_with_subgraph_scanning")
     key = "MinFlowDecomp._get_lowerbound_with_subgraph_scanning:window-constraints"
@@ -740,6 +831,8 @@ def check(prog: Program, rep):
     greedy_padding_guard(prog, rep, "C19.R6")
     node_mode_constraint_shapes(prog, rep, "C19.R6")
     lowerbound_helpers_on_unvalidated_input(prog, rep, "C19.R6")
+    from rules.values import k_as_python_int_in_rows
+    k_as_python_int_in_rows(prog, rep, "C19.R6", ["kFlowDecomp", "kLeastAbsErrors", "kMinPathError"])
     from rules.plumb import options_none_safe
     options_none_safe(prog, rep, "C19.R6")
     from rules.plumb import default_k_handled, additional_nodes_typed
